@@ -33,20 +33,19 @@ theorem suspendOn_closed (s : St) (t x : Tid) (pc : Nat) (c : Cont) : (suspendOn
   simp only [core, Prod.mk.injEq] at hc
   exact hc.1
 
-theorem execClose_closed (cfg : Cfg) (t : Tid) (c : Cont) (fuel pc : Nat) (s : St) (h : s.closed = true) :
-    (execClose cfg s t c fuel pc).closed = true := by
-  refine execClose_rule cfg t c (fun s => s.closed = true) (fun s => s.closed = true) ?_ ?_ ?_ ?_ ?_ fuel pc s h
+theorem execClose_closed (cfg : Cfg) (t : Tid) (c : Cont) (pc : Nat) (s : St) (h : s.closed = true) :
+    (execClose cfg s t c pc).closed = true := by
+  refine execClose_rule cfg t c (fun s => s.closed = true) (fun s => s.closed = true) ?_ ?_ ?_ ?_ pc s h
   · intro s h; exact h
   · intro s h; exact h
   · intro s x pc h _ _ _; rw [suspendOn_closed]; exact h
   · intro s h; rw [closeTail_closed]; exact h
-  · intro s h; exact h
 
 theorem enterClose_closed (cfg : Cfg) (s : St) (t : Tid) (c : Cont) : (enterClose cfg s t c).closed = true := by
   unfold enterClose
   split
   · rename_i h; rw [runCont_closed]; exact h
-  · exact execClose_closed cfg t c 8 0 _ rfl
+  · exact execClose_closed cfg t c 0 _ rfl
 
 theorem InvR.of_closed {s : St} (h : s.closed = true) : InvR s := by
   intro hc; rw [h] at hc; contradiction
